@@ -92,7 +92,18 @@ def clause_a(rep, F, caps):
         if B == caps[0]:
             rep.extra["fetch_next_token_exits"] = [(x[2], x[3], str(x[4])) for x in E.analyse(SCANNER + "::fetch_next_token", 0, e1.INF, (None,))]
             clause_e_summary(rep, F, E)
-            clause_e_loops(rep, F, E)
+            # (c) and the must-consume facts come from the character-class pass (E1 pass B)
+            from . import classdom
+            EB = classdom.run(F, B)
+            classdom.contract_sites(rep, F, EB, B)
+            n = classdom.plain_scalar_precondition(rep, F, EB, B, "plain-scalar-precondition")
+            rep.extra["class_pass"] = {"capacity": B, "contexts": EB.contexts, "next_can_be_plain_scalar_contexts": n}
+            for (fk, bb), hits in sorted(EB.diverge_hits.items()):
+                f = F.fns[fk]
+                reviewed = fk == SCANNER + "::insert_token"
+                rep.check(reviewed, "class-unreachable-panic", short(fk), "a panic/debug_assert in the scanner is reachable under the character-class analysis",
+                          site=site(f, f.blocks[bb]["term"]["sp"]))
+            clause_e_loops(rep, F, E, EB)
     rep.floor("Input primitive call sites visited by E1", floor_sites or 0, 100)
     # E1 follows calls, not closures: an Input operation inside a closure would escape the look-ahead analysis (fail closed)
     for k, f in sorted(F.fns.items()):
@@ -192,9 +203,10 @@ def may_consume_functions(F):
     return seen
 
 
-def clause_e_loops(rep, F, E):
+def clause_e_loops(rep, F, E, EB=None):
     must = must_consume_functions(E)
     may = may_consume_functions(F)
+    site_must = {k for k, v in (EB.site_cons.items() if EB is not None else []) if v}
     rep.extra["must_consume_functions"] = sorted(short(k) for k in must if "Scanner::" in k)
     nloops = 0
     weak = []
@@ -231,6 +243,9 @@ def clause_e_loops(rep, F, E):
                     strong_blocks.add(b); kinds.add("stack-pop")
                 elif key in must or base in must:
                     strong_blocks.add(b); kinds.add("must-consume-call")
+                elif (k, b) in site_must:
+                    # the class pass shows the callee consumes in every context that reaches this call site (e.g. skip_ws_to_eol at a tab)
+                    strong_blocks.add(b); kinds.add("must-consume-at-this-site")
                 elif (key in may or base in may) and (key in F.fns or base in F.fns):
                     weak_blocks.add(b); kinds.add("may-consume-call")
             # counter loops: x = x + const>0 stored back to the local that an exit test compares with a bound
@@ -246,6 +261,10 @@ def clause_e_loops(rep, F, E):
             inst = "%s#loop%d" % (short(k), [h for h, _ in f.natural_loops()].index(head))
             if not _cycle_avoiding(f, head, body, strong_blocks):
                 rep.ok("loop-progress", inst, sorted(kinds))
+            elif EB is not None and (k, head) in EB.loop_heads_seen and (k, head) not in EB.spin_sources:
+                # the class pass followed every abstract state around this loop: none comes back to the head without having consumed
+                rep.ok("loop-progress", inst, sorted(kinds | {"class-pass: every return to the loop head has consumed"}))
+                rep.extra.setdefault("loops_by_class_pass", []).append(inst)
             elif not _cycle_avoiding(f, head, body, strong_blocks | weak_blocks):
                 weak.append(inst)
                 rep.ok("loop-progress-weak", inst, sorted(kinds))
